@@ -433,7 +433,7 @@ def _gating(ctx, acm):
 def _running_owner(ctx, acm):
     mod = acm.module
     n = 0
-    for func in mod.all_functions():
+    for func in mod.live_functions():
         defs = {}
         for sub in K.walk_no_nested(func.node):
             if isinstance(sub, ast.Assign) and isinstance(sub.targets[0],
